@@ -183,7 +183,9 @@ def o5(W, ob):
                  'P2PSession::new does not force sparse_saving = false when max_prediction == 0: ' + desc, where(f, s.line))
 
 
-from . import helpers
+from . import helpers, wiring
+
+from . import initial
 
 OBLIGATIONS = [
     ('C04.O1', 'the gate', 'The new-frame step implies current - last_confirmed < max_prediction (current < max_prediction '
@@ -196,4 +198,6 @@ OBLIGATIONS = [
     ('C04.O6', 'the confirmed frame both gates read is the min over connected players (= C03.O4)', 'see C03.O4', c03.o4),
     ('C04.O5', 'sparse saving off in lockstep', 'P2PSession::new stores sparse_saving = false when max_prediction == 0.', o5),
     ('C04.H', 'helpers the rules above rely on', 'the bodies of the helpers named by this property\'s rules compute what the rules assume (player_input, get_cell); see rules/helpers.py', helpers.bundle('player_input', 'get_cell')),
+    ('C04.W', 'configuration wiring', 'at every call site that passes a field read `x.B` for a parameter `A` the callee has no same-typed parameter `B`; in every struct literal no parameter `B` is stored in field `A` while a same-typed parameter `A` / field `B` exists (builder -> constructor -> endpoint fields: timeouts, window, fps are not crossed); see rules/wiring.py', wiring.rule),
+    ('C04.I', 'initial state', 'every constructor gives the fields this property\'s rules interpret (NULL_FRAME = none / nothing yet, 0 = first frame, latches open, typestate start) the value listed in tables/initial_state.json; every field compared with NULL_FRAME anywhere is listed; see rules/initial.py', initial.rule_for('C04')),
 ]
